@@ -320,6 +320,9 @@ type World struct {
 	yieldN   int
 	yields   []*yieldRec
 	ys       yieldState
+	kmHold   *kmHold
+	stimAny  bool  // a clock advance is in progress (real timers of any node may fire)
+	stimNode *Node // the node whose main loop is being handed an election trigger / a sync right now
 }
 
 func (w *World) ev(format string, args ...interface{}) {
